@@ -478,7 +478,7 @@ def _jobs_for(prop, tier):
     if prop == 'C07':
         return [j for j in jobs_option_below(tier) if j[1][3] == 'combinations'] + jobs_combinations(tier) + jobs_axis0(tier, 'combinations') + jobs_record_below(tier, ('combinations',))
     if prop == 'C03':
-        return jobs_c03(tier) + jobs_option_reduce(tier) + jobs_axis(tier, ('reduce',)) + jobs_reduce_nonlocal(tier) + jobs_unmasked_passthrough(('reduce_next',))
+        return jobs_c03(tier) + jobs_option_reduce(tier) + jobs_axis(tier, ('reduce',)) + jobs_reduce_nonlocal(tier) + jobs_unmasked_passthrough(('reduce_next',)) + jobs_record_reduce(tier)
     return {'C02': (lambda t: jobs_c02(t) + jobs_numpy_toregular(t)), 'C03': jobs_c03, 'C04': (lambda t: jobs_c04(t) + jobs_numpy_toregular(t)), 'C06': (lambda t: jobs_c06(t) + jobs_axis(t, ('sort', 'argsort')) + jobs_numpy_sort(t) + jobs_sort_nonlocal(t) + jobs_option_sort(t) + jobs_option_sort_above(t) + jobs_option_argsort(t) + jobs_string_argsort(t) + jobs_unmasked_passthrough(('sort_next', 'argsort_next'))), 'C08': (lambda t: jobs_c08(t) + jobs_numpy(t) + jobs_numpy_types(t) + jobs_union(t) + jobs_reverse_merge(t) + jobs_record_merge(t) + jobs_list_merge(t) + [j for j in jobs_record_named(t) if j[0] is h_record_mergemany_named] + jobs_merge_union(t) + jobs_union_ops(t)), 'C17': (lambda t: jobs_c17(t) + jobs_record_keys(t)), 'C12': (lambda t: jobs_numpy(t) + jobs_numpy_astype(t) + [(h_index_alloc, (), 900)] + [(h_axis0, (L_, 'combinations', n_, True), 900) for L_, n_ in ((1, 2), (2, 3), (1, 3), (0, 2))] + [j for j in jobs_numpy_getitem(t) if j[1][3] == 'array']), 'C10': (lambda t: jobs_c10(t) + [j for j in jobs_record_named(t) if j[0] is h_record_field_key] + jobs_project(t) + [j for j in jobs_option_below(t) if j[1][3] in ('getitem_field', 'getitem_fields')] + jobs_record_setitem(t)), 'C05': jobs_c05, 'C09': jobs_c09}.get(prop, lambda t: [])(tier)
 
 
@@ -6462,3 +6462,84 @@ def h_unmasked_passthrough(method, n=3):
 
 def jobs_unmasked_passthrough(methods):
     return [(h_unmasked_passthrough, (m_,), 900) for m_ in methods]
+
+
+# ------------------------------------------------------------------------------------------------ C03: reducing through a record
+@guard
+def h_record_reduce(nfields, length):
+    """RecordArray::reduce_next: every field is reduced on its own with the very same request - over exactly the first `length` entries of its
+    content (a field content may be longer than the record array: the groups in `parents` describe `length` entries) - and the answer is a
+    record array of `outlength` records holding, field by field, what each content answered"""
+    nc = NodeCtx(['REC', 'IA', 'IDX', 'CNT', 'UTL', 'KD', 'IDS'], [], unwind=max(12, 3 * nfields + 10))
+    seen = []
+    kk = z3.BitVec('k!', 64)
+    BASE = 1 << 32
+    ANS = z3.Function('ANSWER', z3.BitVecSort(64), z3.BitVecSort(64))
+
+    def stub(eng, fr, ins, st, name, argv):
+        nm, info = nc.content_info(argv[1], st, eng)
+        first = z3.simplify(z3.Select(info['atoms'], BV(0)))
+        seen.append(dict(pc=st.pc, info=info, args=tuple(argv[2:])))
+        nc._ret(st, argv[0], nc.fresh_content(eng, st, argv[7], z3.Lambda([kk], ANS(first + kk)), derived='answer'))
+        return None
+    nc.m.eng.stubs['vf$slot%d' % nc.slot('11reduce_nextERKNS_7ReducerEl')] = stub
+    this, vals, lens = build_record(nc, nfields, length)
+
+    def index64(name, count):
+        d = nc.m.array(name + '_data', ('i', 64), max(1, count), const=True)
+        cells = {}
+        nc.index_cells(cells, 0, d, BV(0), BV(count))
+        return nc.m.record(name, cells, const=True)
+    starts, shifts, parents = index64('starts', 2), index64('shifts', 0), index64('parents', length)
+    negaxis, outl = nc.m.bv('negaxis'), nc.m.bv('outlength')
+    nc.m.assume(negaxis >= 1, negaxis <= 4, outl >= 0, outl <= 3)
+    f1, f2 = nc.m.bv('maskflag', 1), nc.m.bv('keepdims', 1)
+    reducer = nc.m.record('reducer', {0: (NULL, 8)}, const=True)
+    args = [reducer, negaxis, starts, shifts, parents, outl, f1, f2]
+    nc.m.record('ret', {})
+    cands = [f for mod_ in nc.m.eng.mods for f in mod_.func_src if f.startswith('_ZNK7awkward11RecordArray11reduce_nextERKNS_7ReducerEl')]
+    out = nc.m.call(cands[0], [Ptr('ret', 0), this] + args)
+    obls = [('reduce_next does not raise', out.raised), ('every field content is asked', z3.BoolVal(len(seen) != nfields))]
+    for k, ob in enumerate(seen):
+        g = ob['pc']
+        obls.append(('field %d is reduced over exactly the %d entries of the record array' % (k, length), z3.And(g, ob['info']['length'] != length)))
+        if length:
+            obls.append(('field %d: the entries handed on start at its first one' % k, z3.And(g, z3.Select(ob['info']['atoms'], BV(0)) != k * BASE)))
+        for pos, (a, w) in enumerate(zip(ob['args'], args)):
+            if isinstance(w, Ptr):
+                same = z3.Or([gg for gg, qq in nodeh.ptr_cases(a) if qq.obj == w.obj] + [z3.BoolVal(False)])
+                obls.append(('field %d: argument %d (an index / the reducer) is handed on as it came' % (k, pos), z3.And(g, z3.Not(same))))
+            else:
+                a_ = a if a.size() == w.size() else z3.Extract(w.size() - 1, 0, a)
+                obls.append(('field %d: argument %d is handed on unchanged' % (k, pos), z3.And(g, a_ != w)))
+    for g, res in nodeh.decode_cases(nc, out.mem, nc.m.cell('ret', 0)):
+        if res is None:
+            obls.append(('a result is returned', z3.And(g, z3.Not(out.raised))))
+            continue
+        if res['cls'] != 'record' or len(res['contents']) != nfields:
+            obls.append(('the answer is a record array with the same fields', g)); continue
+        obls.append(('the answer has one record per group', z3.And(g, res['length'] != outl)))
+        for k, c in enumerate(res['contents']):
+            ok_ = c['cls'] == 'opaque' and c.get('derived') == 'answer'
+            obls.append(('field %d of the answer is what its content answered' % k, z3.And(g, z3.BoolVal(not ok_))))
+            if ok_ and length:
+                obls.append(('field %d of the answer comes from field %d' % (k, k), z3.And(g, outl > 0, z3.Select(c['atoms'], BV(0)) != ANS(BV(k * BASE)))))
+
+    def replay(model, ent):
+        if nfields == 0:
+            return False, 'records without fields are not replayed', {}
+        # field k: length + 2 numbers (longer than the record array), all records in one group: sum over exactly the first `length`
+        prog, exp = '', {}
+        for k in range(nfields):
+            vals_ = [10 * k + i + 1 for i in range(length + 2)]
+            prog += 'i64 %s ' % fullnative.ints(vals_)
+            exp[str(k)] = sum(vals_[:length])
+        prog += 'tuple %d %d regular %d 1 reduce sum 1 0 0' % (nfields, length, length) if length else 'tuple %d 0 regular 0 1 reduce sum 1 0 0' % nfields
+        return akrun_check(prog, [exp], 'sum(axis=1) over one list of %d records whose field contents are 2 entries longer' % length)
+    return mdischarge(nc.m, 'RecordArray::reduce_next, %d fields, %d records' % (nfields, length), obls, [('a field content longer than the record array', lens[0] > length)] if nfields else [], replay=replay,
+                      prefer=[x <= length + 2 for x in lens], extra=dict(bounds='%d fields, %d records (case split); field content lengths, every argument symbolic' % (nfields, length)))
+
+
+def jobs_record_reduce(tier):
+    q = [(2, 2), (1, 0)] if tier == 'quick' else [(2, 2), (1, 0), (3, 1), (1, 3), (0, 2)]
+    return [(h_record_reduce, a, 900) for a in q]
